@@ -441,6 +441,17 @@ func (i *Inst) runTunUser(s *FrontScript, tw *TraceWriter, rng *rand.Rand) error
 	oo := OpenOpts{Transport: s.Transport}
 	user := ""
 	switch s.Scheme {
+	case "local-slow":
+		// the backend takes its time over this user; meanwhile another user's request (right credentials) is handled
+		user = "slow7"
+		oo.Basic = user + ":" + i.Users[user]
+		go func() {
+			time.Sleep(120 * time.Millisecond)
+			if c, err := i.hdial(); err == nil {
+				c.do("GET", i.P.Addr, i.R.NextCid("h"), [][2]string{{"Authorization", "Basic " + base64.StdEncoding.EncodeToString([]byte("slow8:"+i.Users["slow8"]))}}, false)
+				c.c.Close()
+			}
+		}()
 	case "local":
 		user = "7"
 		oo.Basic = user + ":" + i.Users[user]
